@@ -52,6 +52,7 @@ def nest(k, inner, o="start ", c=" end"):
 # ---- shapes whose depth is unbounded at run time (user recursion): must end with the reported error
 GUARDED = {
     "rec-direct": ("do f(n) start\n return f(n add 1)\nend\nshout(f(0))\n", [MAIN]),
+    "rec-statement-call": ("do f(n) start\n f(n add 1)\nend\nf(0)\n", [MAIN]),
     "rec-mutual": ("do f(n) start\n return g(n add 1)\nend\ndo g(n) start\n return f(n add 1)\nend\nshout(f(0))\n", [MAIN]),
     "rec-argument": ("do h(a, b) start\n return a\nend\ndo f(n) start\n return h(1, f(n add 1))\nend\nshout(f(0))\n", [MAIN, [EE, FC]]),
     "rec-binary-operand": ("do f(n) start\n return 1 add f(n add 1) times 2\nend\nshout(f(0))\n", [MAIN, [EE]]),
